@@ -33,9 +33,10 @@ type c18mchunk struct {
 type c18mprog struct{ chunks []c18mchunk }
 
 type c18mp struct {
-	toks []string
-	pos  int
-	ok   bool
+	toks  []string
+	pos   int
+	ok    bool
+	calls map[int]bool // functions called
 }
 
 func (p *c18mp) peek() string {
@@ -121,6 +122,9 @@ func (p *c18mp) expr(depth int) string {
 		if !ok || k >= 8 {
 			p.ok = false
 			return ""
+		}
+		if p.calls != nil {
+			p.calls[k] = true
 		}
 		a := p.expr(depth + 1)
 		return fmt.Sprintf("%%F%d(%s)", k, a)
@@ -238,7 +242,7 @@ func c18miniParse(src string) *c18mprog {
 		if len(ct) == 0 {
 			return nil
 		}
-		p := &c18mp{toks: ct[1:], ok: true}
+		p := &c18mp{toks: ct[1:], ok: true, calls: map[int]bool{}}
 		switch ct[0] {
 		case "tog":
 			if ch.forced || len(ct) != 2 {
@@ -263,6 +267,9 @@ func c18miniParse(src string) *c18mprog {
 			e := p.expr(0)
 			if !p.ok || p.next() != "end" || p.pos != len(p.toks) || !p.ok {
 				return nil
+			}
+			if p.calls[k] {
+				return nil // a function that calls itself: unbounded recursion cannot be run
 			}
 			ch.body = strings.Join(append(body, "return "+e), "; ")
 		case "do":
@@ -407,7 +414,7 @@ func c18miniSystematic() []string {
 type c18mg struct {
 	r     *rand.Rand
 	ndef  int
-	inFn  bool
+	inDef bool // generating the body of function ndef
 	nodes int
 }
 
@@ -431,7 +438,14 @@ func (g *c18mg) expr(d int) string {
 			return fmt.Sprintf("call %d %s", g.r.Intn(g.ndef), g.expr(d-1))
 		}
 		if g.r.Intn(12) == 0 {
-			return fmt.Sprintf("call %d %s", g.r.Intn(8), g.expr(d-1)) // undefined function
+			// undefined function (never the function being defined: no recursion)
+			lo := g.ndef
+			if g.inDef {
+				lo++
+			}
+			if lo < 8 {
+				return fmt.Sprintf("call %d %s", lo+g.r.Intn(8-lo), g.expr(d-1))
+			}
 		}
 		fallthrough
 	default:
@@ -494,8 +508,10 @@ func c18miniRandom(r *rand.Rand) string {
 			chunks = append(chunks, fmt.Sprintf("tog %d", bits))
 		case c <= 2 && g.ndef < 8:
 			// functions call only functions defined before them: no recursion
+			g.inDef = true
 			body := g.stmts(r.Intn(3), 2)
 			chunks = append(chunks, strings.Join(strings.Fields(fmt.Sprintf("%sdef %d %s ret %s end", forced, g.ndef, body, g.expr(2))), " "))
+			g.inDef = false
 			g.ndef++
 		default:
 			body := g.stmts(r.Intn(4), 2)
